@@ -29,6 +29,10 @@ micron.  Staged history in one process: convolve -> fit -> write_parameters / wr
 extract_parameters -> convolve again (overwrite, one more filter): every file's rows still follow the parameter
 table on disk / the cube.
 
+All fitters of a case (per-file, per-file use_memmap, cube memmap off / on, and in half of the cases a second
+memory-mapped fitter on another cube package of the same shape) are built first and stay alive together; the fits are
+then made in a shuffled order.
+
 Model side: driver `ordermatch` (= `sortToMatch`) on (SED names in directory-listing order, table
 names) predicts which listing position lands in which row; `convnames 1|2` (= `convolveV1/V2` on tagged
 SEDs) predicts names and row contents of both formats (driver op `convnames`).
@@ -60,7 +64,7 @@ REQUIRED_BRANCHES = ['perfile', 'cube', 'conv_memmap_on', 'conv_memmap_off', 'fi
                      'no_apertures', 'unit_sed_mJy', 'unit_sed_Jy', 'unit_sed_erg', 'unit_cube_mJy', 'unit_cube_Jy',
                      'perfile_fit_memmap_on', 'cube_table_permuted', 'cube_table_same_order',
                      'cube_val_unc_units_differ', 'sed_flux_err_units_differ',
-                     'fit_aperture_dependent', 'fit_aperture_independent', 'multi_aperture_fit_aperture_independent',
+                     'fitters_alive_together', 'second_memmap_fitter_other_package', 'fit_aperture_dependent', 'fit_aperture_independent', 'multi_aperture_fit_aperture_independent',
                      'cube_table_accepted_rows_checked_or_refused',
                      'staged_history', 'staged_history_unsorted_table', 'stage_write_parameters',
                      'stage_write_parameter_ranges', 'stage_extract_parameters',
@@ -220,17 +224,18 @@ def gen_case(rng, n=None, table_perm=None, directed=None):
                 cube_store=directed.get('cube_store', rng.choice(['nu_inc', 'nu_dec'])),
                 g=g, h=h, c=c, e=e, tilt=tilt, etilt=etilt, general=general, filters=filters, src=src, av=[0., 40.],
                 stage=directed.get('stage', rng.choice([None, None, 'write_parameters', 'write_parameter_ranges', 'extract_parameters'])),
-                apdep=ap_dep, flat=flat, unit_sed=unit_sed, unit_cube=unit_cube, unit_sed_err=unit_sed_err, unit_cube_unc=unit_cube_unc,
+                apdep=ap_dep, second_pkg=directed.get('second_pkg', rng.random() < 0.5),
+                fit_order=rng.sample([0, 1, 2, 3], 4), flat=flat, unit_sed=unit_sed, unit_cube=unit_cube, unit_sed_err=unit_sed_err, unit_cube_unc=unit_cube_unc,
                 cube_table=cube_table)
 
 
 DIRECTED = [
     dict(n=1, nap=1, nf=2, flat=True, sed_store='nu_inc', cube_store='nu_dec', pad=True, stage='write_parameters', no_aps=True, unit_sed='Jy', unit_cube='mJy', unit_sed_err='mJy', unit_cube_unc='Jy', cube_perm=True),
-    dict(n=8, nap=5, nf=3, flat=False, general=True, stage='write_parameters', sed_store='nu_dec', cube_store='nu_inc', pad=True, name30=True, subdir=True),
+    dict(n=8, nap=5, nf=3, flat=False, general=True, stage='write_parameters', second_pkg=True, sed_store='nu_dec', cube_store='nu_inc', pad=True, name30=True, subdir=True),
     dict(n=3, nap=1, nf=3, flat=True, sed_store='nu_dec', cube_store='nu_dec', pad=False, name30=True, stage='write_parameter_ranges', no_aps=True, unit_sed='erg/cm2/s', unit_cube='Jy', unit_sed_err='Jy', unit_cube_unc='mJy', cube_perm=True),
     dict(n=4, nap=2, nf=2, flat=False, general=False, sed_store='nu_inc', cube_store='nu_inc', pad=True, stage='extract_parameters', subdir=True, unit_sed='erg/cm2/s', unit_cube='mJy', unit_sed_err='erg/cm2/s', unit_cube_unc='mJy', cube_perm=True),
     dict(n=5, nap=3, nf=2, flat=True, sed_store='nu_dec', cube_store='nu_inc', pad=True, subdir=True, apdep=False),
-    dict(n=2, nap=4, nf=3, flat=False, general=True, sed_store='nu_inc', cube_store='nu_dec', pad=False, apdep=False),
+    dict(n=2, nap=4, nf=3, flat=False, general=True, sed_store='nu_inc', cube_store='nu_dec', pad=False, apdep=False, second_pkg=True),
     dict(n=5, nap=1, nf=2, flat=False, general=True, sed_store='nu_dec', cube_store='nu_dec', pad=True, no_aps=False, unit_sed='Jy', unit_cube='Jy', unit_sed_err='erg/cm2/s', unit_cube_unc='mJy', cube_perm=True),
     dict(n=6, nap=1, nf=3, flat=False, general=True, sed_store='nu_inc', cube_store='nu_inc', pad=True, no_aps=True, unit_sed='mJy', unit_cube='Jy', cube_perm=False),
 ]
@@ -531,17 +536,30 @@ def check_file(case, tab, via, expect_names, fname, filt, what, scale=1.):
     return fails, ident
 
 
-def fit_variant(case, d, fnames, use_memmap, src_flux):
+def build_fitter(case, d, fnames, use_memmap):
     nf = len(fnames)
     ext = pk.make_extinction(EXT_W, EXT_CHI)
     arcsec = [(case['aps'][0] if case['aps'] else 1000.) * 1.3 / 1000.] * nf
-    fitter = pk.make_fitter(d, fnames, arcsec, ext, case['av'], distance_range_kpc=(1., 2.), use_memmap=use_memmap)
+    return pk.make_fitter(d, fnames, arcsec, ext, case['av'], distance_range_kpc=(1., 2.), use_memmap=use_memmap)
+
+
+def do_fit(case, fitter, fnames, src_flux):
+    nf = len(fnames)
     s = pk.make_source('src', [1] * nf, src_flux, [f * r for f, r in zip(src_flux, case['src']['rel'])])
     with common.quiet():
         info = fitter.fit(s)
     a = pk.fit_arrays(info)
     fitter.last_info = info
-    return {nme: (a['av'][i], a['sc'][i], a['chi2'][i]) for i, nme in enumerate(a['name'])}, fitter
+    return {nme: (a['av'][i], a['sc'][i], a['chi2'][i]) for i, nme in enumerate(a['name'])}
+
+
+def other_package(case, d2, d3, fnames, v2):
+    """a second cube package of the same shape (same cube, same filters) whose convolved fluxes are different numbers"""
+    shutil.copytree(d2, d3)
+    for fn, filt in zip(fnames, case['filters']):
+        t = v2[fn]
+        pk.write_convolved(d3, fn, filt['cw'], [x.strip() for x in t['names']], t['flux'][::-1] * 3.7 + 0.011, t['err'][::-1],
+                           apertures_au=case['aps'])
 
 
 def staged_history(case, d, d1, d2, filters, fitters, br):
@@ -721,21 +739,38 @@ def impl_side(case, d):
     row = v1[fnames[0]]['names'].index(names[sm]) if names[sm] in v1[fnames[0]]['names'] else 0
     src_flux = [float(v1[fn]['flux'][row][0]) * fac for fn, fac in zip(fnames, case['src']['fac'])]
     try:
-        ref, fitter = fit_variant(case, d1, fnames, False, src_flux)
-        fitters = {'per-file': fitter}
+        # all fitters of the case are built first and stay alive together; the fits follow in a shuffled order
+        variants = [('per-file', d1, False), ('per-file use_memmap=True', d1, True), ('cube use_memmap=False', d2, False),
+                    ('cube use_memmap=True', d2, True)]
+        fitters = {}
+        for what, dd, um in variants:
+            fitters[what] = build_fitter(case, dd, fnames, um)
+        br.add('fitters_alive_together')
+        second = None
+        if case.get('second_pkg'):
+            # one more memory-mapped fitter, on ANOTHER package of the same shape, created after the first one
+            d3 = os.path.join(d, 'cube_other')
+            other_package(case, d2, d3, fnames, v2)
+            second = build_fitter(case, d3, fnames, True)
+            br.add('second_memmap_fitter_other_package')
+        fitter = fitters['per-file']
         # largest |log10| of any model flux the fitter can see (all apertures; distances 1-2 kpc scale by <= 4)
         lmax = max(float(np.max(np.abs(np.log10(v1[fn]['flux'])))) for fn in fnames) + np.log10(4.)
         tav, tsc, tchi = f32_budget(case, fitter, lmax)
-        variants = [('per-file use_memmap=True', d1, True), ('cube use_memmap=False', d2, False),
-                    ('cube use_memmap=True', d2, True)]
+        order = [variants[i][0] for i in case.get('fit_order', [0, 1, 2, 3])]
+        results = {}
+        for what in order:
+            results[what] = do_fit(case, fitters[what], fnames, src_flux)
+        if second is not None:
+            do_fit(case, second, fnames, src_flux)
+        ref = results['per-file']
         relaxed = 0
-        for what, dd, um in variants:
+        for what, dd, um in variants[1:]:
             if dd == d1:
                 br.add('perfile_fit_memmap_on')
             else:
                 br.add('fit_memmap_on' if um else 'fit_memmap_off')
-            got, fv_ = fit_variant(case, dd, fnames, um, src_flux)
-            fitters[what] = fv_
+            got = results[what]
             um = um and dd != d1          # the per-file reader has no float32 path: exact agreement expected
             if sorted(got) != sorted(ref):
                 fails.append('fit from %s: model names %r, per-file %r' % (what, sorted(got), sorted(ref)))
